@@ -59,7 +59,7 @@ package l1infotreesync
 // position rollupID-1 and recorded together with the resulting rollup exit root.
 //@ func (p *processor) isNewValueForRollupExitTree
 //@   props C11
-//@   requires p != nil && p.rollupExitTree != nil && p.rollupExitTree.Tree != nil && event != nil && tx != nil
+//@   requires p != nil && p.rollupExitTree != nil && p.rollupExitTree.Tree != nil && event != nil
 //@   modifies nothing
 //@   ensures[unchanged-means-the-current-leaf-is-that-root] (result1 == nil && !result0) ==> rootLastIdx(p.rollupExitTree.Tree) >= 0 && desc(rhtL(p.rollupExitTree.Tree), rhtR(p.rollupExitTree.Tree), rootHash(p.rollupExitTree.Tree)[rootLastIdx(p.rollupExitTree.Tree)], uint32(event.RollupID - 1), 0) == event.ExitRoot
 //@   ensures[empty-tree-is-new] (result1 == nil && rootLastIdx(p.rollupExitTree.Tree) == -1) ==> result0
